@@ -8,3 +8,11 @@ claim('C01',
       'from the .pyx source by the pyxsym interpreter (validated against the compiled extension on every run).',
       'symbolic execution of the real Python + SMT (z3 NRA), counterexamples replayed on the real library',
       'DESIGN.md section 5 C01')
+claim('C19',
+      'Bounded symbolic check of the real RegionBoundingBox code: all corners, the image shape and a probe pixel are '
+      'unbounded symbolic integers; union/intersection/overlap-slice results are compared with pixel-set semantics by '
+      'the solver on every path; from_float over the reals plus an IEEE-754 (QF_FP) lemma that x+0.5 is exact on the '
+      '1/8 lattice below 2^49.',
+      'Python ints as mathematical integers; z3 LIA/LRA; builtin max/min replaced by the equivalent ite term.',
+      'symbolic execution of the real Python + SMT (z3 LIRA, QF_FP lemma)',
+      'DESIGN.md section 5 C19')
